@@ -5,26 +5,26 @@ From Coq Require Import List NArith Bool Lia Arith Permutation.
 Local Open Scope N_scope.
 
 Section Rows.
-Variable rules : key -> rule.
+Variable R : key -> N -> rule.
 Variable F : key -> N -> list value -> list N -> N -> N.
 
-Local Notation rok := (row_ok rules F).
-Local Notation rcl := (row_concl rules F).
+Local Notation rok := (row_ok F R).
+Local Notation rcl := (row_concl F).
 
 (* the conclusion of a row only looks at the stored values of its recorded inputs *)
-Lemma row_concl_transfer : forall m m' x r v,
-  rcl m x r v ->
+Lemma row_concl_transfer : forall rl m m' x r v,
+  rcl rl m x r v ->
   (forall y, In (mkDep y false false) (cdeps r) -> stored m' y = stored m y) ->
-  rcl m' x r v.
+  rcl rl m' x r v.
 Proof.
-  intros m m' x r v [Hv Hin] Hst. unfold row_concl in *. cbn zeta in *.
-  assert (H1 : map (stored m') (r_req (rules x)) = map (stored m) (r_req (rules x))).
+  intros rl m m' x r v [Hv Hin] Hst. unfold row_concl in *. cbn zeta in *.
+  assert (H1 : map (stored m') (r_req rl) = map (stored m) (r_req rl)).
   { apply map_ext_in. intros y Hy. apply Hst, Hin. apply in_or_app. now left. }
   rewrite H1.
-  set (bk := branch_keys (rules x) (map (stored m) (r_req (rules x)))) in *.
+  set (bk := branch_keys rl (map (stored m) (r_req rl))) in *.
   assert (H2 : map (stored m') bk = map (stored m) bk).
   { apply map_ext_in. intros y Hy. apply Hst, Hin. apply in_or_app. right. apply in_or_app. now left. }
-  assert (H3 : map (stamp_of m') (r_disc (rules x)) = map (stamp_of m) (r_disc (rules x))).
+  assert (H3 : map (stamp_of m') (r_disc rl) = map (stamp_of m) (r_disc rl)).
   { apply map_ext_in. intros y Hy. unfold stamp_of. rewrite Hst; [reflexivity|].
     apply Hin. apply in_or_app. right. apply in_or_app. now right. }
   rewrite H2, H3. split; assumption.
@@ -41,7 +41,7 @@ Lemma row_ok_quiet : forall m m' x r,
   (forall y, res_computedAt (get m' y) = res_computedAt (get m y)) ->
   rok m x r -> rok m' x r.
 Proof.
-  intros m m' x r Hst Hc Hok. unfold row_ok in *. intros Hb Hs. destruct (Hok Hb Hs) as (v & Hv & Ho & Hd & Hcl).
+  intros m m' x r Hst Hc Hok. unfold row_ok in *. intros Hb. destruct (Hok Hb) as (v & Hv & Ho & Hd & Hcl).
   exists v. split; [exact Hv|]. split; [exact Ho|]. split; [exact Hd|]. intros Hf.
   apply row_concl_transfer with (m := m); [|intros; apply Hst].
   apply Hcl. apply fresh_deps_ext with (m := m'); [|exact Hf]. intros; symmetry; apply Hc.
@@ -53,7 +53,7 @@ Lemma row_ok_changed : forall m m' k x r,
   (In k (map d_key (cdeps r)) -> res_builtAt r < res_computedAt (get m' k)) ->
   rok m x r -> rok m' x r.
 Proof.
-  intros m m' k x r Hoth Hnew Hok. unfold row_ok in *. intros Hb Hs. destruct (Hok Hb Hs) as (v & Hv & Ho & Hd & Hcl).
+  intros m m' k x r Hoth Hnew Hok. unfold row_ok in *. intros Hb. destruct (Hok Hb) as (v & Hv & Ho & Hd & Hcl).
   exists v. split; [exact Hv|]. split; [exact Ho|]. split; [exact Hd|]. intros Hf.
   destruct (in_dec N.eq_dec k (map d_key (cdeps r))) as [Hin|Hnin].
   - exfalso. specialize (Hnew Hin). apply in_map_iff in Hin. destruct Hin as [d [Hk Hd']]. subst k.
@@ -106,17 +106,17 @@ Proof.
 Qed.
 
 Section RowExt.
-Variable rules : key -> rule.
+Variable R : key -> N -> rule.
 Variable F : key -> N -> list value -> list N -> N -> N.
 
 (* a row only matters through its value, signature, builtAt and non-single-use dependencies *)
 Lemma row_ok_row_ext : forall m x r r',
   res_value r' = res_value r -> res_sig r' = res_sig r -> res_builtAt r' = res_builtAt r ->
   drop_single (res_deps r') = drop_single (res_deps r) ->
-  row_ok rules F m x r -> row_ok rules F m x r'.
+  row_ok F R m x r -> row_ok F R m x r'.
 Proof.
   intros m x r r' Hv Hs Hb Hd Hok. unfold row_ok in *. rewrite Hv, Hs, Hb, Hd.
-  intros H1 H2. destruct (Hok H1 H2) as (v & Hv' & Ho & Hdd & Hcl). exists v.
+  intros H1. destruct (Hok H1) as (v & Hv' & Ho & Hdd & Hcl). exists v.
   split; [exact Hv'|]. split; [exact Ho|]. split; [exact Hdd|].
   pose proof (cdeps_eq r r' Hd) as Hc.
   unfold fresh_deps, row_concl in *. rewrite Hc, Hb. exact Hcl.
@@ -129,11 +129,13 @@ Variable env : key -> N.
 Variable F : key -> N -> list value -> list N -> N -> N.
 Variable order : N -> key -> list dep -> list dep.
 Variable rank : key -> nat.
+Variable R : key -> N -> rule.
+Hypothesis HR : table_ok rules R.
 Hypothesis Hrank : wf_rank rules rank.
 Hypothesis Hdisc : wf_disc rules.
 Hypothesis Horder : wf_order order.
 
-Local Notation G := (Good rules env F rank).
+Local Notation G := (Good rules env F rank R).
 Local Notation cvk := (cvk rules env F rank).
 
 (* L2: replacing a memory row by an equivalent one (the single-use cleaning of scanRule) *)
@@ -203,7 +205,7 @@ Qed.
 
 (* a row whose recorded inputs are all complete, and whose conclusion holds, stores the clean value *)
 Lemma concl_clean : forall s k r v, current rules env F rank s ->
-  row_concl rules F (st_mem s) k r v ->
+  row_concl F (rules k) (st_mem s) k r v ->
   (forall d, In d (cdeps r) -> done s (d_key d)) ->
   snd v = obs rules env k -> Some v = cvk k.
 Proof.
@@ -226,7 +228,7 @@ Lemma concl_of_clean : forall s k r v, current rules env F rank s ->
   (forall x, In x (r_req (rules k) ++ bk ++ r_disc (rules k)) -> done s x) ->
   (forall x, In x (r_req (rules k) ++ bk ++ r_disc (rules k)) -> In (mkDep x false false) (cdeps r)) ->
   Some v = cvk k ->
-  row_concl rules F (st_mem s) k r v.
+  row_concl F (rules k) (st_mem s) k r v.
 Proof.
   intros s k r v Hcur bk Hdone Hin Hv. unfold row_concl. cbn zeta.
   rewrite (stored_clean s (r_req (rules k))) by (auto; intros x Hx; apply Hdone, in_or_app; now left).
@@ -246,9 +248,9 @@ Proof.
   - now apply Ho.
 Qed.
 
-Lemma row_concl_row_ext : forall m k r r' v, cdeps r' = cdeps r ->
-  row_concl rules F m k r v -> row_concl rules F m k r' v.
-Proof. intros m k r r' v Hc H. unfold row_concl in *. now rewrite Hc. Qed.
+Lemma row_concl_row_ext : forall rl m k r r' v, cdeps r' = cdeps r ->
+  row_concl F rl m k r v -> row_concl F rl m k r' v.
+Proof. intros rl m k r r' v Hc H. unfold row_concl in *. now rewrite Hc. Qed.
 
 (* L3: a scan that found nothing to do marks the key complete, in memory only *)
 Lemma Good_mark : forall E s k r,
@@ -265,8 +267,8 @@ Proof.
     - rewrite get_update_same. cbn. tauto.
     - rewrite get_update_other by exact Hne. tauto. }
   assert (Hcd : cdeps r' = cdeps r) by reflexivity.
-  destruct (Hrows k HkE) as (v & Hv & Ho & Hdd & Hconcl); [now rewrite Hr | now rewrite Hr |].
-  rewrite Hr in *. specialize (Hconcl Hfresh).
+  destruct (Hrows k HkE) as (v & Hv & Ho & Hdd & Hconcl); [now rewrite Hr |].
+  rewrite Hr in *. rewrite Hs, (HR k) in Ho, Hdd, Hconcl. specialize (Hconcl Hfresh).
   assert (Hclean : Some v = cvk k).
   { apply concl_clean with (s := s) (r := r); auto. now apply valid_stamp with (r := r). }
   assert (Hst : forall y, stored (update (st_mem s) k r') y = stored (st_mem s) y).
@@ -282,7 +284,8 @@ Proof.
       repeat split; try tauto. lia.
     + now rewrite get_update_other.
   - intros x Hx. unfold set_mem; cbn. destruct (N.eq_dec x k) as [->|Hne].
-    + rewrite get_update_same. intros _ _. exists v. split; [exact Hv|]. split; [exact Ho|]. split; [exact Hdd|].
+    + rewrite get_update_same. intros _. cbn [res_sig r']. rewrite Hs, (HR k).
+      exists v. split; [exact Hv|]. split; [exact Ho|]. split; [exact Hdd|].
       intros _. apply row_concl_row_ext with (r := r); [exact Hcd|].
       apply row_concl_transfer with (m := st_mem s); [exact Hconcl | intros; apply Hst].
     + rewrite get_update_other by exact Hne. apply row_ok_quiet with (m := st_mem s); auto.
@@ -437,7 +440,7 @@ Proof.
   intros E s k r v bk (Hbnd & Hsync & Hrows & Hcl & Hcur & Hex) Hr Hv Hdone.
   unfold Good. repeat apply conj; auto.
   - intros x Hx. destruct (N.eq_dec x k) as [->|Hne]; [|apply Hrows; tauto].
-    rewrite Hr. intros _ _. exists v. split; [reflexivity|]. split; [|split].
+    rewrite Hr. intros _. cbn [res_sig complete_row]. rewrite (HR k). exists v. split; [reflexivity|]. split; [|split].
     + intros Ho. rewrite cvk_value in Hv. inversion Hv. cbn. unfold obs. now rewrite Ho.
     + intros d Hd. apply in_drop_single in Hd. destruct Hd as [Hd _].
       apply complete_deps_mentioned in Hd; [exact Hd|]. intros y. apply branch_keys_incl.
